@@ -205,6 +205,8 @@ def record_gm(sp, rs, k):
         ev.append({"e": "gm", "iter": int(kk), "ratio": fx(max(Fk - Fs, 0) / max(bound, 1e-300)), "up": fx(max(Fk - Fprev, 0) / F0gap), "mdist": 0, "prod": 0,
                    "saddle_defect": 0, "final_dist": 0, "caller_prod": 0, "in_place": 1})
         Fprev = Fk
+        if alg.iter > K + 2:
+            break          # more updates than max_iter: the end event carries the count and the trace is rejected
     # fixed point: one update started at the minimiser
     xf = xs.copy()
     a2 = sp.alg.GradientMethod(lambda v: A.conj().T @ (A @ v - y), xf, alpha, proxg=make_prox(sp, gk, lam, n), accelerate=acc, max_iter=1, tol=0)
@@ -296,6 +298,8 @@ def record_pdhg(sp, rs, k, force_mode=None):
                     + float(np.max(np.abs(np.asarray(alg.tau, dtype=float) / np.asarray(tau, dtype=float) * np.mean(np.asarray(alg.sigma, dtype=float)) / np.mean(np.asarray(sigma, dtype=float)) - 1))))
             ev.append({"e": "pd", "iter": int(kk), "ratio": 0, "up": 0, "mdist": md, "prod": pr, "saddle_defect": 0, "final_dist": 0, "caller_prod": 0, "in_place": 1})
         xprev = flat(alg.x).copy()
+        if alg.iter > K + 2:
+            break
     # saddle point is a fixed point
     x2, u2 = xs.copy(), us.copy()
     a2 = sp.alg.PrimalDualHybridGradient(sp.prox.L2Reg([n], 1, y=-y), make_prox(sp, gk, lam, n) or sp.prox.NoOp([n]), lambda v: A @ v, lambda v: A.conj().T @ v, x2, u2,
